@@ -91,4 +91,54 @@ fn main() {
     );
     let dest = PathBuf::from(std::env::var("OUT_DIR").unwrap()).join("api_gen.rs");
     fs::write(dest, out).unwrap();
+    data_api(&dep);
+}
+
+/// `pub fn` / `pub(crate) fn` names of the FIRST inherent `impl <Type> {` block of every data-structure
+/// source file (up to the closing `}` in column 0 or `#[cfg(test)]`), for `src/datax.rs`: a name that
+/// is in the source but not in its coverage map is reported by `./check C01` as
+/// `C01:coverage:data-fn-not-driven:<file>::<fn>`.
+fn data_api(dep: &str) {
+    let mut rows: Vec<(String, String)> = Vec::new();
+    for f in ["skiplist", "sorted_set", "list", "sds", "set", "hash"] {
+        let file = PathBuf::from(dep).join(format!("src/redis/data/{}.rs", f));
+        println!("cargo:rerun-if-changed={}", file.display());
+        let src = fs::read_to_string(&file).unwrap_or_else(|e| panic!("{}: {}", file.display(), e));
+        let mut inside = false;
+        for line in src.lines() {
+            let t = line.trim_start();
+            if t.starts_with("#[cfg(test)]") {
+                break;
+            }
+            if !inside {
+                if line.starts_with("impl") && !line.contains(" for ") && line.trim_end().ends_with('{') {
+                    inside = true;
+                }
+                continue;
+            }
+            if line.starts_with('}') {
+                break;
+            }
+            let after = if let Some(r) = t.strip_prefix("pub fn ") {
+                r
+            } else if let Some(r) = t.strip_prefix("pub(crate) fn ") {
+                r
+            } else if let Some(r) = t.strip_prefix("pub const fn ") {
+                r
+            } else {
+                continue;
+            };
+            let name: String = after.chars().take_while(|c| c.is_alphanumeric() || *c == '_').collect();
+            if !name.is_empty() {
+                rows.push((format!("{}.rs", f), name));
+            }
+        }
+        if !inside {
+            panic!("{}: no inherent `impl <Type> {{` block found — the data-structure source changed shape", file.display());
+        }
+    }
+    let body = rows.iter().map(|(f, n)| format!("({:?}, {:?})", f, n)).collect::<Vec<_>>().join(", ");
+    let out = format!("pub const DATA_PUB_FNS: &[(&str, &str)] = &[{}];\n", body);
+    let dest = PathBuf::from(std::env::var("OUT_DIR").unwrap()).join("data_api_gen.rs");
+    fs::write(dest, out).unwrap();
 }
